@@ -21,6 +21,8 @@ import Goat.Drv.SrvReplay
 import Goat.Drv.PbOps
 import Goat.Drv.PxOps
 import Goat.UnaryReply
+import Goat.CfgMap
+import Goat.OpenStream
 import Goat.Props.C02
 open Goat Goat.Drv
 
@@ -313,6 +315,13 @@ def evalOp (op input : String) : Option String :=
       let r := UnaryReply.reply req m (if e == .nil then some pl else none) e hm tm
       some (showRoute r ++ "~" ++ showEnv r)
     | _ => none
+  | "badmetareply" => match input.splitOn "|" with
+    | [id, m, a, b, rec] => do
+      let id ← id.toNat?; let m ← parseHex m; let a ← parseHex a; let b ← parseHex b
+      let rec ← parseList parseHex "," rec
+      let r := UnaryReply.badMeta { id := id, header := some { method := m, src := a, dst := b, record := rec }, body := some [] } m []
+      some (showRoute r ++ s!"~code={match r.status with | some st => toString st.code | none => "none"}~body={if r.body.isSome then 1 else 0}~trailer={if r.trailer.isSome then 1 else 0}")
+    | _ => none
   | "resetreply" => match input.splitOn "|" with
     | [id, m, a, b, rec] => do
       let id ← id.toNat?; let m ← parseHex m; let a ← parseHex a; let b ← parseHex b
@@ -348,6 +357,9 @@ def evalOp (op input : String) : Option String :=
     | _ => none
   | "chainlog" => match input.splitOn "|" with
     | [n, req] => do let n ← n.toNat?; let req ← parseHex req; some (chainRun n req)
+    | _ => none
+  | "openstream" => match input.splitOn "," with
+    | [r, w] => some (OpenStream.render (OpenStream.newStream ({} : OpenStream.Cfg) (r == "1") (w == "1")))
     | _ => none
   | "statshape" => match input.splitOn "|" with
     | [fin, evs] => (parseList parseKind "," evs).map (fun l =>
